@@ -61,6 +61,7 @@ def _loss_kind(cfg, lost):
 
 
 class PrefetchFamily(common.Family):
+  pct_ok = False   # timed oracles: see harness.run_random
   prop = 'C15'
   name = 'prefetch'
   max_steps = 1_000_000
